@@ -102,3 +102,4 @@ def run_model_legs(ctx):
     else:
         ctx.fail("trace-rejected:Trace_XlsbSheet", {"kind": "trace", "trace": trace, "info": v["info"],
                                                     "tlc_output": v["out"]})
+    ctx.bigsst_leg("xlsb")
